@@ -1,10 +1,152 @@
-(* Property C13 — mnemonic encoding is exactly BIP-39 (statements only). *)
-From Coq Require Import List ZArith.
+(* Property C13 — mnemonic encoding is exactly BIP-39.
+   Only statements here; each is closed by [exact] of a lemma proved in Codec/Bip39Proofs.v and
+   followed by Print Assumptions.
+   Model: Codec/Bip39.v (keystore.NewMnemonic, EntropyFromMnemonic, MnemonicToByteArray,
+   IsMnemonicValid, NewSeed, NewSeedWithErrorChecking with math/big, strings.Fields/TrimSpace and
+   the mask/shift tables as written in mnemonic.go).
+   Specification, written from the BIP-39 text at the level of bit strings:
+     spec_encode H e       = words of the 11-bit groups of  bits(e) ++ first |e|*8/32 bits of H(e), joined by ' '
+     valid_sentence H ws e = ws has 12/15/18/21/24 words, all on the list, and the concatenation of their
+                             11-bit indexes is  bits(e) ++ checksum bits of e   (spec_decode = its executable form)
+     bip39_seed            = PBKDF2(sentence joined by single spaces, "mnemonic" ++ NFKD(passphrase), 2048, 64)
+   H (SHA-256), PBKDF2 and NFKD are universally quantified: the theorems hold for every function;
+   [hash_wf H] only says that H returns at least one byte (value 0..255).
+   The word list is coq/Gen/Wordlist.v, regenerated from wordlists/english.go on every run. *)
+From Coq Require Import List ZArith Lia.
 Import ListNotations.
 Open Scope Z_scope.
 Require Import MW.Gen.Wordlist MW.Codec.Bip39 MW.Codec.Bip39Proofs.
 
-Theorem C13_seed_is_bip39 : forall (PBKDF2 : bytes -> bytes -> Z -> Z -> bytes) (NFKD : bytes -> bytes) m p,
+(* the generated list has 2048 distinct entries (so an 11-bit group always names one word, and a word one group) *)
+Theorem C13_wordlist : len wordlist = 2048 /\ NoDup wordlist.
+Proof. exact (conj wordlist_len wordlist_nodup). Qed.
+Print Assumptions C13_wordlist.
+
+(* NewMnemonic computes exactly the BIP-39 encoding: every byte string, all five sizes (any leading zero
+   bytes), and the same error for every other size *)
+Theorem C13_encode_is_spec : forall H, hash_wf H -> forall e : bytes,
+  bytes_ok e -> new_mnemonic H e = spec_encode H e.
+Proof. exact new_mnemonic_is_spec. Qed.
+Print Assumptions C13_encode_is_spec.
+
+(* ... which for a legal size is a single-space-joined sentence that is a valid mnemonic of e *)
+Theorem C13_encode_valid : forall H, hash_wf H -> forall e : bytes, legal_len e -> bytes_ok e ->
+  exists ws, new_mnemonic H e = Ok (join_sp ws) /\ valid_sentence H ws e /\ fields (join_sp ws) = ws.
+Proof. exact new_mnemonic_valid. Qed.
+Print Assumptions C13_encode_valid.
+
+Theorem C13_encode_rejects : forall H (e : bytes), ~ legal_len e -> new_mnemonic H e = Err ErrEntropyLengthInvalid.
+Proof. exact new_mnemonic_rejects. Qed.
+Print Assumptions C13_encode_rejects.
+
+(* decoding the produced mnemonic returns the same entropy (both decoders) *)
+Theorem C13_roundtrip : forall H, hash_wf H -> forall e : bytes, legal_len e -> bytes_ok e ->
+  exists m, new_mnemonic H e = Ok m /\ entropy_from_mnemonic H m = Ok e.
+Proof. exact roundtrip. Qed.
+Print Assumptions C13_roundtrip.
+
+Theorem C13_roundtrip_byte_array : forall H, hash_wf H -> forall e : bytes, legal_len e -> bytes_ok e ->
+  exists m, new_mnemonic H e = Ok m /\ mnemonic_to_byte_array H true m = Ok e /\ is_mnemonic_valid m = true.
+Proof. exact roundtrip_byte_array. Qed.
+Print Assumptions C13_roundtrip_byte_array.
+
+(* acceptance, for every byte string s: EntropyFromMnemonic returns e exactly when the strings.Fields split
+   of s has a legal count, only list words and the correct checksum for e *)
+Theorem C13_accept_iff : forall H, hash_wf H -> forall (s : str) (e : bytes),
+  entropy_from_mnemonic H s = Ok e <-> valid_sentence H (fields s) e.
+Proof. exact efm_accept_iff. Qed.
+Print Assumptions C13_accept_iff.
+
+(* the same for MnemonicToByteArray(s, true) ... *)
+Theorem C13_byte_array_accept_iff : forall H, hash_wf H -> forall (s : str) (e : bytes),
+  mnemonic_to_byte_array H true s = Ok e <-> valid_sentence H (fields s) e.
+Proof. exact mtba_raw_accept_iff. Qed.
+Print Assumptions C13_byte_array_accept_iff.
+
+(* ... and without the flag: same acceptance, the value is the ENT+CS bit string as a number on |e|+1 bytes *)
+Theorem C13_byte_array_checksummed : forall H, hash_wf H -> forall (s : str) (b : bytes),
+  mnemonic_to_byte_array H false s = Ok b <->
+  exists e, valid_sentence H (fields s) e /\
+            b = pad_bytes (be_bytes (bits_val (bits e ++ checksum_bits H e))) (len e + 1).
+Proof. exact mtba_accept_iff. Qed.
+Print Assumptions C13_byte_array_checksummed.
+
+(* the declarative acceptance predicate is what the executable bit-level decoder computes; a sentence has at most one entropy *)
+Theorem C13_spec_decode_iff : forall H, hash_wf H -> forall (ws : list str) (e : bytes),
+  spec_decode H ws = Some e <-> valid_sentence H ws e.
+Proof. exact spec_decode_iff. Qed.
+Print Assumptions C13_spec_decode_iff.
+
+Theorem C13_entropy_unique : forall H, hash_wf H -> forall (ws : list str) (e1 e2 : bytes),
+  valid_sentence H ws e1 -> valid_sentence H ws e2 -> e1 = e2.
+Proof. exact valid_sentence_functional. Qed.
+Print Assumptions C13_entropy_unique.
+
+(* IsMnemonicValid is what it is: word count and membership, no checksum (see C13_ex_valid_no_checksum) *)
+Theorem C13_is_mnemonic_valid : forall s : str,
+  is_mnemonic_valid s = true <->
+  (length (fields s) = 12 \/ length (fields s) = 15 \/ length (fields s) = 18 \/
+   length (fields s) = 21 \/ length (fields s) = 24)%nat /\
+  Forall (fun w => In w wordlist) (fields s).
+Proof. exact is_mnemonic_valid_spec. Qed.
+Print Assumptions C13_is_mnemonic_valid.
+
+(* strings.TrimSpace before strings.Fields changes nothing (MnemonicToByteArray splits that way) *)
+Theorem C13_fields_trim_space : forall s : str, fields (trim_space s) = fields s.
+Proof. exact fields_trim_space. Qed.
+Print Assumptions C13_fields_trim_space.
+
+(* seed (repaired code: the white space of the sentence is normalised first): the BIP-39 seed of the words of
+   ANY string, for every passphrase that is already in NFKD form (every ASCII passphrase) *)
+Theorem C13_seed_is_bip39 : forall (PBKDF2 : bytes -> bytes -> Z -> Z -> bytes) (NFKD : bytes -> bytes) (m p : str),
   NFKD p = p -> new_seed PBKDF2 m p = bip39_seed PBKDF2 NFKD (fields m) p.
 Proof. exact new_seed_is_bip39. Qed.
 Print Assumptions C13_seed_is_bip39.
+
+(* NewSeedWithErrorChecking succeeds exactly on the valid sentences and returns that seed *)
+Theorem C13_seed_checked : forall H, hash_wf H ->
+  forall (PBKDF2 : bytes -> bytes -> Z -> Z -> bytes) (m p : str) (sd : bytes),
+  new_seed_with_error_checking H PBKDF2 m p = Ok sd <->
+  (exists e, valid_sentence H (fields m) e) /\ sd = PBKDF2 (join_sp (fields m)) (mnemonic_lit ++ p) 2048 64.
+Proof. exact new_seed_checked_iff. Qed.
+Print Assumptions C13_seed_checked.
+
+(* the code as first found (raw string as PBKDF2 password) violates the seed clause: for every entropy there is
+   an accepted sentence (its mnemonic with one leading space) whose seed differs from the BIP-39 seed of its
+   words, for every collision-free key-derivation function. Repaired in /repo (KNOWN_FINDINGS.txt, fixed:). *)
+Theorem C13_seed_unfixed_refuted : forall H, hash_wf H ->
+  forall (PBKDF2 : bytes -> bytes -> Z -> Z -> bytes) (NFKD : bytes -> bytes) (e : bytes),
+  legal_len e -> bytes_ok e ->
+  exists m, entropy_from_mnemonic H m = Ok e /\
+    forall p, NFKD p = p ->
+      (forall a b s i k, PBKDF2 a s i k = PBKDF2 b s i k -> a = b) ->
+      new_seed_unfixed PBKDF2 m p <> bip39_seed PBKDF2 NFKD (fields m) p.
+Proof. exact new_seed_unfixed_refuted. Qed.
+Print Assumptions C13_seed_unfixed_refuted.
+
+(* ---------------------------------------------------------------- non-vacuity: concrete values.
+   H0 answers 0x37 = the first byte of SHA-256(16 zero bytes), so the first example is official vector 1. *)
+Definition H0 : bytes -> bytes := fun _ => [55].
+Definition w_abandon : str := [97; 98; 97; 110; 100; 111; 110].
+Definition w_about : str := [97; 98; 111; 117; 116].
+Definition zeros16 : bytes := repeat 0 16.
+Definition vector1 : str := join_sp (repeat w_abandon 11 ++ [w_about]).
+
+Example C13_ex_hash_wf : hash_wf H0.
+Proof. intros d. exists 55, []. split; [reflexivity|lia]. Qed.
+Example C13_ex_encode : new_mnemonic H0 zeros16 = Ok vector1 /\ legal_len zeros16 /\ bytes_ok zeros16.
+Proof.
+  split; [vm_compute; reflexivity|]. split; [left; reflexivity|].
+  unfold zeros16. cbn [repeat]. repeat constructor; unfold is_byte; lia.
+Qed.
+(* tabs, double spaces, a leading U+3000 and a trailing newline: same words, same entropy *)
+Example C13_ex_respaced :
+  entropy_from_mnemonic H0 ([227; 128; 128] ++ w_abandon ++ [32; 9; 32] ++ vector1 ++ [10]) = Err ErrInvalidMnemonic /\
+  entropy_from_mnemonic H0 ([227; 128; 128] ++ join_sp (repeat w_abandon 10) ++ [32; 9; 32] ++ w_abandon ++ [32; 32] ++ w_about ++ [10]) = Ok zeros16.
+Proof. split; vm_compute; reflexivity. Qed.
+(* twelve list words with a wrong checksum: IsMnemonicValid says true, both decoders reject *)
+Example C13_ex_valid_no_checksum :
+  is_mnemonic_valid (join_sp (repeat w_abandon 12)) = true /\
+  entropy_from_mnemonic H0 (join_sp (repeat w_abandon 12)) = Err ErrChecksumIncorrect /\
+  mnemonic_to_byte_array H0 true (join_sp (repeat w_abandon 12)) = Err ErrChecksumIncorrect.
+Proof. repeat split; vm_compute; reflexivity. Qed.
